@@ -10,6 +10,23 @@ pub fn write_replay(ctx: &Ctx, prop: &str, index: u64, min_case: &Case, v: &Viol
     let _ = std::fs::create_dir_all(&dir);
     let path = dir.join(format!("{}-{}.json", ctx.seed, index));
     // event log of the minimised case, for the reader
+    // embed the reference model so that the file replays independently of the generator version
+    let mut min_case = min_case.clone();
+    if min_case.label.starts_with("W2") && min_case.aux.get("model").is_none() {
+        let m = crate::w2::build(&min_case.aux);
+        if m.text == min_case.program {
+            min_case.aux["model"] = m.to_json();
+        }
+    }
+    if min_case.label.starts_with("W3") && min_case.aux.get("model_stdout_hex").is_none() {
+        let m = crate::w3::build(&min_case.aux);
+        if m.text == min_case.program {
+            min_case.aux["model_stdout_hex"] = serde_json::json!(crate::plan::hex(&m.stdout));
+            min_case.aux["model_nkeys"] = serde_json::json!(m.nkeys);
+            min_case.aux["model_program_hex"] = serde_json::json!(crate::plan::hex(&m.text));
+        }
+    }
+    let min_case = &min_case;
     let r = ctx.run(0, &min_case.program, &min_case.world, &min_case.plan);
     let events: Vec<String> = r.events.iter().map(|e| e.render()).collect();
     let j = json!({
